@@ -196,6 +196,127 @@ def synth(rng, lang, heavy_words=None):
     return text, order, crash
 
 
+
+# ------------------------------------------------------------------ (iv) instances of the output grammars
+# (coq/Diag/GrammarScala.v, GrammarGroovy.v): generated here as structures, rendered HERE (independently of
+# the Coq rendering), analysed by the real code; the kernel then evaluates the hypotheses of the attribution
+# theorems on the structure and compares the theorems' right-hand side with the real result.
+
+S_KINDS = ["[E007] Type Mismatch ", "[E008] Not Found ", "", "[E172] Type ", "[E050] Type ", "Syntax ",
+           "[E134] Type ", "Error: nested ", "[E006] Not Found "]
+S_BLOCK_PLAIN = ["%(l)d |  val x: Int = y", "  |               ^", "  |               Found:    (y : String)",
+                 "  |               Required: Int", "  |  Not found: foo", "", "  |", "%(l)d |  foo(1, 2)",
+                 "  |  value Error: bar is not a member of Foo", "  |  too many arguments for method foo: (x: Int): Int"]
+S_BLOCK_DASH = ["%(l)d |  val x: String = -1", "  |                  Found:    (-1 : Int)",
+                "  | longer explanation available when compiling with `-explain`", "  |  Required: Int -> String",
+                "%(l)d |  val s = a -- b", "  |  a pre-existing definition"]
+S_AFTER = ["-- Warning: %(f)s.scala:%(l)d:%(c)d -----------", "-- [E129] Potential Issue Warning: %(f)s.scala:%(l)d:%(c)d ---",
+           "there were 2 feature warnings; re-run with -feature for details", "1 warning found", "-explain", "--"]
+
+
+def rnd_stem(rng, name, k):
+    tmp = "/tmp/tmp" + "".join(rng.choice(string.ascii_lowercase + string.digits + "_") for _ in range(8))
+    pkg = "".join(rng.choice(string.ascii_letters + string.digits + "_") for _ in range(rng.randint(1, 9)))
+    return "%s/src/%s%d/%s" % (tmp, pkg, k, name)
+
+
+def scala_instance(rng):
+    """Returns (items, text, truth): items = ("H", kind, stem, ln, col, nd) | ("O", txt)."""
+    stems = [rnd_stem(rng, "program", k) for k in range(rng.randint(1, 5))]
+    items = []
+    nerr = rng.choice([0, 1, 1, 2, 3, 5])
+    if rng.random() < 0.3:
+        items.append(("O", rng.choice(S_AFTER + ["", "compiling 3 files"]) % dict(f=stems[0], l=1, c=1)))
+    for _ in range(nerr):
+        f = rng.choice(stems)
+        l, c = rng.randint(1, 400), rng.randint(1, 120)
+        items.append(("H", rng.choice(S_KINDS), f, str(l), str(c), rng.randint(1, 40)))
+        pool = S_BLOCK_PLAIN + (S_BLOCK_DASH if rng.random() < 0.5 else [])
+        for i in range(rng.randint(1, 6)):
+            items.append(("O", rng.choice(pool) % dict(l=l)))
+        if rng.random() < 0.3:
+            for i in range(rng.randint(1, 3)):
+                items.append(("O", rng.choice(S_AFTER + S_BLOCK_PLAIN) % dict(f=rng.choice(stems), l=l, c=c)))
+    if nerr and rng.random() < 0.8:
+        items.append(("O", "%d error%s found" % (nerr, "s" if nerr > 1 else "")))
+    text = "".join(("-- %sError: %s.scala:%s:%s %s\n" % (it[1], it[2], it[3], it[4], "-" * it[5])) if it[0] == "H"
+                   else it[1] + "\n" for it in items)
+    truth = {}
+    for i, it in enumerate(items):
+        if it[0] == "H":
+            block = []
+            for jt in items[i + 1:]:
+                if jt[0] == "H":
+                    break
+                block.append(jt[1] + "\n")
+            truth.setdefault(it[2] + ".scala", []).append("".join(block))
+    return items, text, truth
+
+
+G_BODIES = [" %(l)d: [Static type checking] - Cannot assign value of type java.lang.String to variable of type int\n @ line %(l)d, column %(c)d.\n           int x = y\n               ^",
+            " %(l)d: [Static type checking] - Cannot find matching method Main#foo(int). Please check if the declared type is correct and if the method exists.\n @ line %(l)d, column %(c)d.\n   foo(1)\n   ^",
+            " %(l)d: unexpected token: } @ line %(l)d, column %(c)d.\n   }\n   ^",
+            " %(l)d: The return type of A foo() in Main is incompatible with B in Base\n. At [%(l)d:%(c)d]  @ line %(l)d, column %(c)d.\n     A foo() { x - 1 }\n     ^",
+            " %(l)d: [Static type checking] - Incompatible generic argument types. Cannot assign Foo <Bar> to: Foo <Baz>\n @ line %(l)d, column %(c)d.\n   Foo<Baz> z = new Foo<Bar>() // see Other.groovy: too\n   ^",
+            ""]
+G_OTHER = ["", "Note: Main uses unchecked or unsafe operations.", "warning: something deprecated", "  ", "General error during class generation"]
+
+
+def groovy_instance(rng):
+    """Returns (items, text, truth): items = ("E", stem, body) | ("O", txt)."""
+    stems = [rnd_stem(rng, "Main", k) for k in range(rng.randint(1, 5))]
+    items = []
+    nerr = rng.choice([0, 1, 1, 2, 3, 5])
+    so = rng.random() < (0.5 if nerr == 0 else 0.15)
+    if nerr:
+        items.append(("O", "org.codehaus.groovy.control.MultipleCompilationErrorsException: startup failed:"))
+    elif so:
+        items.append(("O", 'Exception in thread "main" java.lang.StackOverflowError'))
+        items.append(("O", "\tat java.base/java.util.HashMap.hash(HashMap.java:338)"))
+    for _ in range(nerr):
+        if rng.random() < 0.2:
+            items.append(("O", rng.choice(G_OTHER)))
+        items.append(("E", rng.choice(stems), rng.choice(G_BODIES) % dict(l=rng.randint(1, 400), c=rng.randint(1, 120))))
+    if nerr:
+        items.append(("O", "%d error%s" % (nerr, "s" if nerr > 1 else "")))
+        if so:
+            items.append(("O", "java.lang.StackOverflowError"))
+    if rng.random() < 0.3:
+        items.append(("O", rng.choice(G_OTHER)))
+    text = "".join("%s.groovy:%s\n\n" % (it[1], it[2]) if it[0] == "E" else it[1] + "\n" for it in items)
+    truth = {}
+    for it in items:
+        if it[0] == "E":
+            truth.setdefault(it[1] + ".groovy", []).append(it[2])
+    return items, text, truth, (so and not nerr)
+
+
+def coq_sline(it):
+    if it[0] == "H":
+        return "SHdr %s %s %s %s %d%%nat" % (cs(it[1]), cs(it[2]), cs(it[3]), cs(it[4]), it[5])
+    return "SOther %s" % cs(it[1])
+
+
+def coq_gitem(it):
+    if it[0] == "E":
+        return "GErr %s %s" % (cs(it[1]), cs(it[2]))
+    return "GOther %s" % cs(it[1])
+
+
+def coq_expected(r):
+    if r[0] == "crash":
+        return "ECrash"
+    return "EDiag %s %s" % (C.clist(r[1], lambda kv: "(%s, %s)" % (cs(kv[0]), C.clist(kv[1], cs))),
+                            C.clist(r[2], lambda t: C.clist(t, cs)))
+
+
+GRAMMAR_HDR = (C.CASE_HEADER + "From Coq Require Import List NArith Bool String.\nImport ListNotations.\n"
+               "From Heph Require Import Diag.Regex Diag.Analyze Diag.Corr Diag.GrammarScala Diag.GrammarGroovy "
+               "Diag.CorrGrammar Generated.Regexes.\nOpen Scope string_scope.\n")
+GCODES = {1: "the harness rendering differs from the grammar's rendering", 2: "the generated instance is not well-formed",
+          3: "the generated instance contains the crash word", 4: "the real result differs from the theorem's right-hand side"}
+
+
 def impl_analyze(lang, text, filters):
     from src.compilers import java, kotlin, groovy, scala
     cls = {"java": java.JavaCompiler, "kotlin": kotlin.KotlinCompiler, "groovy": groovy.GroovyCompiler,
@@ -242,7 +363,14 @@ def run(tier, seed, replay=None):
     proof_ok = C.proof_part(rep, "Diag/Properties_C14.v",
                             ["Diag/Regex.vo", "Diag/Analyze.vo", "Generated/Regexes.vo", "Diag/Corr.vo", "Diag/Proofs.vo"],
                             ["Diag", "Generated"])
+    if proof_ok:
+        pr2 = C.check_properties_file("Diag/Properties_C14_more.v",
+                                      ["Diag/EngineLemmas2.vo", "Diag/FilterProofs.vo", "Diag/AttrScala.vo", "Diag/AttrGroovy.vo",
+                                       "Diag/CorrGrammar.vo"])
+        proof_ok = C.proof_part_extra(rep, pr2) and proof_ok
     rng = random.Random(C.sub_seed(seed, "c14"))
+    import time as _time
+    t_proof = _time.time() - rep.t0
 
     # (ii) engine validation
     ncases = 600 if tier == "quick" else 20000
@@ -291,10 +419,48 @@ def run(tier, seed, replay=None):
                        "kotlin": [r"[a-zA-Z0-9/_]+\.kt:\d+:\d+: error: %s.*" % w for w in ws],
                        "groovy": [], "scala": []}[lang]
         e2e.append((lang, text, filters, truth, crash))
+    # (iv) grammar instances (also pushed through the end-to-end comparison above)
+    grng = random.Random(C.sub_seed(seed, "c14-grammar"))
+    ngram = 0 if replay else (40 if tier == "quick" else 2000)
+    gram = []          # (lang, items, text, truth, crash)
+    for i in range(ngram):
+        items, text, truth = scala_instance(grng)
+        gram.append(("scala", items, text, truth, False))
+        items, text, truth, crash = groovy_instance(grng)
+        gram.append(("groovy", items, text, truth, crash))
+    gram = [g for g in gram if ascii_ok(g[2])]
+    n_e2e_plain = len(e2e)
+    for lang, items, text, truth, crash in (gram[:24] if tier == "quick" else gram[:400]):
+        e2e.append((lang, text, [], truth, crash))
     e2e = [x for x in e2e if ascii_ok(x[1])]
+    gram_results = [impl_analyze(lang, text, []) for lang, items, text, truth, crash in gram]
+    gchunk = 100
+    gfiles = []
+    for lang in ("scala", "groovy"):
+        sel = [(g, r) for g, r in zip(gram, gram_results) if g[0] == lang]
+        for k in range(0, len(sel), gchunk):
+            body = ";\n".join("(%s, %s, %s)" % (C.clist(g[1], coq_sline if lang == "scala" else coq_gitem), cs(g[2]), coq_expected(r))
+                              for g, r in sel[k:k + gchunk])
+            gfiles.append(("c14g%s_%d" % (lang[0], k // gchunk),
+                           GRAMMAR_HDR + "Definition cases : list %s_gcase := [\n%s\n].\n"
+                           "Eval vm_compute in (map %s_gcase_code cases).\n" % (lang, body, lang)))
+    # filter patterns = deletion (theorem filters_are_deletion_partial), on the real code
+    filt_checked = filt_differs = filt_created_crash = 0
     results = []
     for lang, text, filters, truth, crash in e2e:
         results.append(impl_analyze(lang, text, filters))
+        if filters and results[-1][0] == "diag":
+            t2 = text
+            for f in filters:
+                t2 = re.sub(f, "", t2)
+            r2 = impl_analyze(lang, t2, [])
+            filt_checked += 1
+            if r2[0] == "crash":
+                filt_created_crash += 1          # the refuted form (filters_can_create_crash): not a violation
+            elif r2 != results[-1]:
+                filt_differs += 1
+                rep.violation("filter-deletion", "%s: analysing with filter patterns differs from deleting their matches first" % lang,
+                              dict(lang=lang, text=text, filters=filters, truth=truth, crash=crash, impl=results[-1], impl_deleted=r2))
     chunk2 = 12
     for k in range(0, len(e2e), chunk2):
         items = []
@@ -309,10 +475,21 @@ def run(tier, seed, replay=None):
             items.append("(comp_%s, %s, %s, %s)" % (lang, C.clist(fts), cs(text), exp))
         files.append(("c14a_%d" % (k // chunk2), ENGINE_HDR + "Definition cases : list analyze_case := [\n%s\n].\n"
                       "Eval vm_compute in (analyze_mismatches 0 cases).\n" % ";\n".join(items)))
+    files += gfiles
     C.clean_cases("c14")
+    t_c0 = _time.time()
     res = C.run_case_files(files, timeout=1500)
+    t_cases = _time.time() - t_c0
     eng_mis, an_mis = [], []
-    for name, _ in files:
+    gram_codes = {"scala": [], "groovy": []}
+    for name, _ in gfiles:
+        rc, out = res[name]
+        if rc != 0:
+            rep.violation("case-file", "case file %s did not evaluate: %s" % (name, out[-500:]),
+                          dict(broken=name, log=out[-3000:]), no_input=True)
+            continue
+        gram_codes["scala" if name.startswith("c14gs_") else "groovy"] += C.parse_nat_list(C.parse_eval_outputs(out)[-1])
+    for name, _ in [f for f in files if not f[0].startswith("c14g")]:
         rc, out = res[name]
         if rc != 0:
             rep.violation("case-file", "case file %s did not evaluate: %s" % (name, out[-500:]),
@@ -374,6 +551,17 @@ def run(tier, seed, replay=None):
                       dict(lang=lang, text=text, filters=filters, truth=truth, crash=crash, impl=results[i],
                            broken="correspondence Diag.Analyze.analyze vs src/compilers/base.py"),
                       no_input=(i not in judged_bad))
+    gram_bad = 0
+    for lang in ("scala", "groovy"):
+        sel = [g for g in gram if g[0] == lang]
+        for g, code in zip(sel, gram_codes[lang]):
+            if code:
+                gram_bad += 1
+                rep.violation("grammar", "%s: a generated instance of the output grammar: %s" % (lang, GCODES.get(code, code)),
+                              dict(lang=lang, text=g[2], filters=[], truth=g[3], crash=g[4], items=g[1], code=code,
+                                   impl=impl_analyze(lang, g[2], []),
+                                   broken="grammar instance generator of harness/c14.py vs Diag/Grammar%s.v" % lang.capitalize()),
+                              no_input=(code != 4))
     for i in eng_mis:
         pat, term, text, s, allm, subbed, ng = eng[i]
         rep.violation("engine", "Coq regex engine and Python re differ on pattern %r, text %r" % (pat, text),
@@ -392,6 +580,21 @@ def run(tier, seed, replay=None):
                  "the four compilers. non-trivial = at least one match / at least one failing file; distinct by (pattern,text) / (lang,text)",
             traces_validated_against_impl=len(e2e), engine_mismatches=len(eng_mis), analyze_mismatches=len(an_mis),
             spec_violations=spec_viol, language_histogram=lang_hist, regexes=reginfo,
+            grammar_instances=dict(scala=len([g for g in gram if g[0] == "scala"]), groovy=len([g for g in gram if g[0] == "groovy"])),
+            grammar_instances_evaluated=dict(scala=len(gram_codes["scala"]), groovy=len(gram_codes["groovy"])),
+            grammar_error_blocks=dict(scala=sum(1 for g in gram if g[0] == "scala" for it in g[1] if it[0] == "H"),
+                                      groovy=sum(1 for g in gram if g[0] == "groovy" for it in g[1] if it[0] == "E")),
+            grammar_scala_blocks_cut_at_dash=sum(1 for g, r in zip(gram, gram_results) if g[0] == "scala" and r[0] == "diag"
+                                                 for f, msgs in r[1] for m_ in msgs if m_ not in g[3].get(f, [])),
+            grammar_groovy_stackoverflow_crashes=sum(1 for g in gram if g[0] == "groovy" and g[4]),
+            phase_wall_s=dict(proof=round(t_proof, 1), case_files=round(t_cases, 1)),
+            grammar_mismatches=gram_bad, grammar_in_end_to_end=len(e2e) - n_e2e_plain,
+            grammar_rule="scalac: 0-5 error blocks (9 header kinds incl. empty and one containing 'Error: '; 1-40 dashes; 1-6 block lines, half of the "
+                         "instances with '-' inside block lines; lines with 'Error: ' or '-- ' alone), warning headers, summaries; groovyc: 0-5 reports "
+                         "(6 body shapes incl. empty body and a body mentioning another .groovy: file), notes, empty lines, 15% with StackOverflowError; "
+                         "for every instance the kernel evaluates wf_s / wf_gitem, the text-level crash tests, render = harness rendering, and "
+                         "group_by_file (serrs|gerrs) = result of the real analyze_compiler_output",
+            filter_deletion_checked=filt_checked, filter_deletion_differs=filt_differs, filter_deletion_created_crash=filt_created_crash,
             samples=[dict(lang=e2e[0][0], text=e2e[0][1][:400], impl=results[0])] if e2e else [],
             trusted_base=C.TRUSTED_BASE_COMMON + [
                 "harness/re2coq.py: CPython's re._parser parse tree -> Coq regex AST (fail-closed outside LITERAL, NOT_LITERAL, ANY, IN, MAX/MIN_REPEAT, SUBPATTERN, ASSERT)",
